@@ -51,7 +51,7 @@ theorem resolve_ok {fs : Fs} {D : Path} {cs : List Str} {follow : Bool} (hD : De
   simpa using this
 
 theorem resolve_missing {fs : Fs} {D : Path} {cs : List Str} {follow : Bool} (hD : DestOk fs D)
-    (hg : ∀ c ∈ cs, goodName c = true) (hlen : (D ++ cs).length < resolveFuel) (hc : CleanTo fs D cs)
+    (hg : ∀ c ∈ cs, goodName c = true) (hlen : (D ++ cs).length < resolveFuel) (hc : CleanFull fs D cs)
     (hm : ∃ pre, pre <+: cs ∧ pre ≠ cs ∧ fs.node (D ++ pre) = none) :
     fs.resolve follow (D ++ cs) = .error .ENOENT := by
   obtain ⟨pre, hp, hne, hn⟩ := hm
@@ -66,7 +66,7 @@ theorem resolve_missing {fs : Fs} {D : Path} {cs : List Str} {follow : Bool} (hD
       rw [List.nil_append]
       rcases prefix_append_cases hq with h1 | ⟨q', rfl, h1⟩
       · exact noneOrDir_of_isDir (hD.dirs q h1)
-      · exact hc q' h1 (fun e => hne2 (by rw [e])))
+      · exact hc q' h1)
     ⟨D ++ pre, (List.prefix_append_right_inj D).2 hp, ?_, fun e => hne (List.append_cancel_left e),
       by simpa using hn⟩
   intro e
@@ -109,7 +109,7 @@ theorem mkdir_have {fs : Fs} {D : Path} {cs : List Str} (hD : DestOk fs D)
     exact hd
 
 theorem mkdir_missing {fs : Fs} {D : Path} {cs : List Str} (hD : DestOk fs D)
-    (hg : ∀ c ∈ cs, goodName c = true) (hlen : (D ++ cs).length < resolveFuel) (hc : CleanTo fs D cs)
+    (hg : ∀ c ∈ cs, goodName c = true) (hlen : (D ++ cs).length < resolveFuel) (hc : CleanFull fs D cs)
     (hm : ∃ pre, pre <+: cs ∧ pre ≠ cs ∧ fs.node (D ++ pre) = none) :
     fs.mkdir (D ++ cs) = (fs, .error .ENOENT) := by
   unfold Fs.mkdir
@@ -131,7 +131,7 @@ theorem mkdirAll_ok {D : Path} : ∀ (k : Nat) (fs : Fs) (cs : List Str), cs.len
     by_cases hh : HaveTo fs D cs
     · -- the parents exist
       rcases mkdir_have hD hg hlen hh (hc cs (List.prefix_refl _)) with ⟨fs1, hmk, hd⟩ | ⟨hmk, hst, hd⟩
-      · have G := mkdir_grows hD hg hc
+      · have G := mkdir_grows hD hg hc.toL
         rw [hmk] at G
         simp only [Fs.mkdirAll, hmk]
         exact ⟨trivial, full_of (hh.kept G.kept) hd⟩
@@ -146,7 +146,7 @@ theorem mkdirAll_ok {D : Path} : ∀ (k : Nat) (fs : Fs) (cs : List Str), cs.len
         cases hn : fs.node (D ++ pre) with
         | none => exact absurd ⟨pre, hp, hne, hn⟩ hcon
         | some x => exact Fs.isDir_iff.2 ⟨x, hn, hc pre hp x hn⟩
-      have hmk := mkdir_missing hD hg hlen hc.to hm
+      have hmk := mkdir_missing hD hg hlen hc hm
       have hcs : cs ≠ [] := by
         obtain ⟨pre, hp, hne, _⟩ := hm
         intro e; subst e
@@ -163,7 +163,7 @@ theorem mkdirAll_ok {D : Path} : ∀ (k : Nat) (fs : Fs) (cs : List Str), cs.len
         omega
       have hg' : ∀ c ∈ cs.dropLast, goodName c = true := fun c h => hg c (List.dropLast_subset cs h)
       obtain ⟨hok, hfull⟩ := ih fs cs.dropLast hk' hD hg' (hc.prefix hpre) hlen'
-      have G1 := mkdirAll_grows k fs cs.dropLast hD hg' (hc.prefix hpre)
+      have G1 := mkdirAll_grows k fs cs.dropLast hD hg' (hc.prefix hpre).toL
       simp only [Fs.mkdirAll, hmk, hpne, if_false, dropLast_dest_append hcs]
       rcases hr : Fs.mkdirAll k fs (D ++ cs.dropLast) with ⟨fs1, r⟩
       rw [hr] at hok hfull G1
@@ -174,7 +174,7 @@ theorem mkdirAll_ok {D : Path} : ∀ (k : Nat) (fs : Fs) (cs : List Str), cs.len
       have hc1 : CleanFull fs1 D cs := G1.cleanFull hc
       have hto1 : HaveTo fs1 D cs := hfull.to_of_dropLast
       rcases mkdir_have hD1 hg hlen hto1 (hc1 cs (List.prefix_refl _)) with ⟨fs2, hmk2, hd2⟩ | ⟨hmk2, hst2, hd2⟩
-      · have G2 := mkdir_grows hD1 hg hc1
+      · have G2 := mkdir_grows hD1 hg hc1.toL
         rw [hmk2] at G2
         simp only [hmk2]
         exact ⟨trivial, full_of (hto1.kept G2.kept) hd2⟩
